@@ -1,10 +1,10 @@
 package main
 
 import (
-	"go/types"
 	"fmt"
 	"go/constant"
 	"go/token"
+	"go/types"
 	"sort"
 	"strings"
 
@@ -199,7 +199,9 @@ func runC19(c *Ctx) {
 			}
 			n++
 			fs := fx.factsAtDeep(h)
-			_, parsed := hasFact(fs, func(f Fact) bool { return f.Pol && f.T.Op == "bin" && f.T.Name == "==" && f.T.Args[0].Op == "extract" && f.T.Args[0].Name == "1" && f.T.Args[1].isNilConst() })
+			_, parsed := hasFact(fs, func(f Fact) bool {
+				return f.Pol && f.T.Op == "bin" && f.T.Name == "==" && f.T.Args[0].Op == "extract" && f.T.Args[0].Name == "1" && f.T.Args[1].isNilConst()
+			})
 			_, positive := hasFact(fs, func(f Fact) bool {
 				return f.Pol && f.T.Op == "bin" && f.T.Name == "<" && f.T.Args[0].String() == "const:0" && f.T.Args[1].Op == "extract"
 			})
@@ -262,7 +264,9 @@ func runC19(c *Ctx) {
 			okSet := func(fs FactSet) bool {
 				_, enabled := hasFact(fs, func(f Fact) bool { return f.Pol && f.T.lastField() == "gpuSharingEnabled" })
 				_, noReq := hasFact(fs, func(f Fact) bool { return !f.Pol && isCallNamed(f.T, "RequestsGPUFraction") })
-				_, validated := hasFact(fs, func(f Fact) bool { return factNilOf(f, true, func(t *Term) bool { return t.Fn != nil && t.Fn.Name() == "ValidateGpuRequests" }) })
+				_, validated := hasFact(fs, func(f Fact) bool {
+					return factNilOf(f, true, func(t *Term) bool { return t.Fn != nil && t.Fn.Name() == "ValidateGpuRequests" })
+				})
 				return (enabled || noReq) && validated
 			}
 			c.Check(fx.acceptWithExpansion(rp.Facts, okSet), "O3", "RET", fmt.Sprintf("%s accepting path#%d", funcKey(av), i), rp.Pos, "(sharing enabled ∨ no sharing annotation) ∧ ValidateGpuRequests == nil", "admission can accept a pod with a sharing annotation while GPU sharing is disabled, or without validating its GPU request")
